@@ -97,7 +97,7 @@ ALPHABET40 = list("0129.eE+-*/^%(),{} \t") + ["a", "t", "o", "m", "K", "'", "°"
 
 
 class C12(Prop):
-    """Theorems C12_progress/cover/tokens_nonempty/bytes: for every string the lexer model terminates, yields non-empty tokens that concatenate to the input on character boundaries; model tied to the real lexer by exhaustive short strings over a 40-symbol alphabet plus random long ones; the implementation's token list is checked directly."""
+    """Theorems (Props/C12.lean): for every string the lexer model terminates with non-empty tokens that cover the input on character boundaries; for every token list the parser model succeeds (no builder error, fuel suffices) and the tree's leaves are exactly the tokens; text of the forest = input. Correspondence: exhaustive short strings over a 40-symbol alphabet (tokens), every sequence of up to four tokens over an 18-token alphabet and random strings (tree shape and leaves)."""
     id = "C12"
     module = "Anything.Props.C12"
     trusted = ["syntree 0.14.5 builder (modelled, tree shapes compared)"]
